@@ -407,7 +407,9 @@ def collapse_one(
             out.inst_in = None
             if proxy_out.params:
                 out.params = proxy_out.params
-            out.times = min(out.times, proxy_out.times)
+            # As in Output.combine(): a negative count means unlimited.
+            if proxy_out.times >= 0:
+                out.times = proxy_out.times if out.times < 0 else min(out.times, proxy_out.times)
             out.delay += proxy_out.delay
             if not proxy_out.comma_sep:
                 out.comma_sep = False
